@@ -102,8 +102,12 @@ class Ctx:
             return known
         if self.pos < len(self.prefix):
             d = self.prefix[self.pos]
+            if isinstance(d, tuple):  # (decision, fingerprint of the condition decided in the original run)
+                d, fp = d
+                if fp != _fingerprint(expr):
+                    raise EncodingError("non-deterministic replay: a decision prefix met a different condition than in the run that recorded it")
             self.pos += 1
-            self.trace.append((d, False))
+            self.trace.append((d, False, _fingerprint(expr)))
             self._add(expr, d)
             self._model = None
             return d
@@ -112,7 +116,7 @@ class Ctx:
         side = z3.is_true(model.eval(expr, model_completion=True))
         other_feasible = self._check(z3.Not(expr) if side else expr)
         self.pos += 1
-        self.trace.append((side, other_feasible))
+        self.trace.append((side, other_feasible, _fingerprint(expr)))
         self._add(expr, side)
         # the cached model satisfies `side`, so it stays valid
         return side
@@ -237,6 +241,13 @@ class Ctx:
                 finally:
                     self.solver.pop()
         return self.extract(self._ensure_model())
+
+
+def _fingerprint(expr):
+    """Process-independent fingerprint of a branch condition (replay determinism check)."""
+    import zlib
+
+    return zlib.crc32(expr.sexpr().encode())
 
 
 def model_value(model, c):
@@ -713,9 +724,9 @@ def explore_subtree(harness, kwargs, root_prefix=(), budget_s=None, max_paths=No
         out["nq"] += ctx.nq
         out["tq"] += ctx.tq
         for i in range(len(prefix), len(ctx.trace)):
-            d, alt = ctx.trace[i]
+            d, alt, fp = ctx.trace[i]
             if alt:
-                stack.append([t[0] for t in ctx.trace[:i]] + [not d])
+                stack.append([(t[0], t[2]) for t in ctx.trace[:i]] + [(not d, fp)])
         if status == "infeasible":
             out["infeasible"] += 1
             continue
